@@ -87,7 +87,9 @@ Inductive sink :=
 | KForget
 | KMut (k : sink)                        (* replace the value through the handle first *)
 | KLazy (n : N) (vid : nat) (k : sink)   (* push n lazy clones of it into vid first *)
-| KLazyDown (n : N) (k : sink).          (* n times lazy_clone().downcast::<T>() (values then dropped) first *)
+| KLazyDown (n : N) (k : sink)           (* n times lazy_clone().downcast::<T>() (values then dropped) first *)
+| KSkip.                                 (* an item passed over by Iterator::nth / nth_back / skip / step_by: destroyed like a
+                                            dropped item, and the call is not reported (the caller never sees it) *)
 
 Inductive iterkind := IRef | IMut | ITypedRef | ITypedMut.
 Inductive fin := FinDrop | FinForget.
@@ -297,6 +299,7 @@ Fixpoint apply_sink (c : cfg) (v : nat) (known : bool) (h : temp) (k : sink)
                          (on_vec v (temp_drop c known h));
       do r <- apply_sink c v known h k';
       ret (xs ++ r)
+  | KSkip => on_vec v (temp_drop c known h);; ret []
   end.
 
 (** ** Items of an iterator *)
@@ -362,6 +365,12 @@ Fixpoint item_sink (c : cfg) (v : nat) (a : api) (p : eptr) (k : sink) : M world
                          (on_vec v (elem_drop c p));
       do r <- item_sink c v a p k';
       ret (xs ++ r)
+  | KSkip =>
+      match a with
+      | Erased => on_vec v (elem_drop c p);; ret []
+      | Typed => do bs <- on_vec v (read_ptr c p); do t <- decode c bs;
+                 harness_drop c t;; ret []
+      end
   end.
 
 (** Walk a consumption pattern over a cursor.  Each call reports
@@ -376,14 +385,14 @@ Fixpoint walk (c : cfg) (v : nat) (a : api) (cleanup : cursor -> M world unit)
       match oi with
       | None =>
           do r <- walk c v a cleanup rest k';
-          ret (0 :: 0 :: cur_len k' :: fst r, snd r)
+          ret (match s with KSkip => fst r | _ => 0 :: 0 :: cur_len k' :: fst r end, snd r)
       | Some idx =>
           do p <- item_ptr c v idx;
           do bs <- on_vec v (read_ptr c p);
           do t <- decode c bs;
           do out <- unwinding (item_sink c v a p s) (cleanup k');
           do r <- walk c v a cleanup rest k';
-          ret (1 :: t :: cur_len k' :: out ++ fst r, snd r)
+          ret (match s with KSkip => fst r | _ => 1 :: t :: cur_len k' :: out ++ fst r end, snd r)
       end
   end.
 
